@@ -319,6 +319,13 @@ theorem SameRecv.trans {a b c : Chan} (h1 : SameRecv a b) (h2 : SameRecv b c) : 
   ⟨h2.1.trans h1.1, h2.2.trans h1.2, h2.3.trans h1.3, h2.4.trans h1.4, h2.5.trans h1.5, h2.6.trans h1.6,
    h2.7.trans h1.7, h2.8.trans h1.8, h2.9.trans h1.9, h2.10.trans h1.10, h2.11.trans h1.11⟩
 
+/-- the send states in which an EOF signalled by the application still waits to be sent -/
+def SendWaiting (c : Chan) : Prop :=
+  c.sendState = .eofPending ∨ (c.sendState = .closePending ∧ c.sendEofPending = true)
+
+/-- a deferred EOF / CLOSE is deferred only because data is still waiting -/
+def PendOK (c : Chan) : Prop := c.sendState = .eofPending ∨ c.sendState = .closePending → c.sendBuf ≠ []
+
 /-- what a send-half operation (`_flush_send_buf` and its callers) guarantees -/
 structure SendSpec (c c' : Chan) (ms : List Msg) : Prop where
   same : SameRecv c c'
@@ -331,6 +338,10 @@ structure SendSpec (c c' : Chan) (ms : List Msg) : Prop where
   pktBound : ∀ dt bs, Msg.data dt bs ∈ ms → bs.length ≤ c.sendPktsize
   trans : c'.sendState = c.sendState ∨ (c.sendState = .eofPending ∧ c'.sendState = .eof) ∨
           (c.sendState = .closePending ∧ c'.sendState = .closed)
+  flagMono : c'.sendEofPending = true → c.sendEofPending = true
+  pendBuf : c'.sendState = .eofPending ∨ c'.sendState = .closePending → c'.sendBuf ≠ []
+  eofMsg : Msg.eof ∈ ms → c'.sendState = .eof ∨ (c.sendState = .closePending ∧ c.sendEofPending = true)
+  waiting : SendWaiting c → SendWaiting c' ∨ Msg.eof ∈ ms
 
 theorem dataOf_nil_not_mem : ∀ (l : List Msg), dataOf l = [] → ∀ dt bs, Msg.data dt bs ∉ l
   | [], _, _, _ => by simp
@@ -350,11 +361,23 @@ theorem flushFuel_pos (c : Chan) : ∃ n, flushFuel c = n + 1 := ⟨_, rfl⟩
 theorem sendPkt_open (c : Chan) (m : Msg) (h : c.sendChanOpen = true) : sendPkt c m = [m] := by
   simp [sendPkt, h]
 
+structure TailSpec (c c' : Chan) (ms : List Msg) : Prop where
+  same : SameRecv c c'
+  sendBuf : c'.sendBuf = c.sendBuf
+  sendWindow : c'.sendWindow = c.sendWindow
+  noData : dataOf ms = []
+  noAdjust : adjustSum ms = 0
+  path : LinkOK (sStage c) (sStage c') ms
+  wf : WFs c'
+  trans : c'.sendState = c.sendState ∨ (c.sendState = .eofPending ∧ c'.sendState = .eof) ∨
+      (c.sendState = .closePending ∧ c'.sendState = .closed)
+  flagMono : c'.sendEofPending = true → c.sendEofPending = true
+  pendBuf : c'.sendState = .eofPending ∨ c'.sendState = .closePending → c'.sendBuf ≠ []
+  eofMsg : Msg.eof ∈ ms → c'.sendState = .eof ∨ (c.sendState = .closePending ∧ c.sendEofPending = true)
+  waiting : SendWaiting c → SendWaiting c' ∨ Msg.eof ∈ ms
+
 theorem flushTail_spec (c c' : Chan) (ms : List Msg) (hwf : WFs c) (h : flushTail c = (c', ms)) :
-    SameRecv c c' ∧ c'.sendBuf = c.sendBuf ∧ c'.sendWindow = c.sendWindow ∧ dataOf ms = [] ∧ adjustSum ms = 0 ∧
-    LinkOK (sStage c) (sStage c') ms ∧ WFs c' ∧
-    (c'.sendState = c.sendState ∨ (c.sendState = .eofPending ∧ c'.sendState = .eof) ∨
-      (c.sendState = .closePending ∧ c'.sendState = .closed)) := by
+    TailSpec c c' ms := by
   unfold flushTail at h
   split at h
   · rename_i hb
@@ -363,29 +386,51 @@ theorem flushTail_spec (c c' : Chan) (ms : List Msg) (hwf : WFs c) (h : flushTai
       have hop : c.sendChanOpen = true := hwf.chanOpen.mpr (by simp [hs])
       simp only [Prod.mk.injEq] at h
       obtain ⟨rfl, rfl⟩ := h
-      refine ⟨⟨rfl, rfl, rfl, rfl, rfl, rfl, rfl, rfl, rfl, rfl, rfl⟩, rfl, rfl, ?_, ?_, ?_, ?_, ?_⟩
+      refine ⟨⟨rfl, rfl, rfl, rfl, rfl, rfl, rfl, rfl, rfl, rfl, rfl⟩, rfl, rfl, ?_, ?_, ?_, ?_, ?_, id, ?_, ?_, ?_⟩
       · simp [sendPkt_open c _ hop, dataOf]
       · simp [sendPkt_open c _ hop, adjustSum]
       · simp [sendPkt_open c _ hop, sStage, hs, LinkOK]
       · exact ⟨by simp [hop], fun _ => hb⟩
       · right; left; exact ⟨hs, rfl⟩
+      · intro h; simp at h
+      · intro _; left; rfl
+      · intro _; right; simp [sendPkt_open c _ hop]
     · rename_i hs
       have hop : c.sendChanOpen = true := hwf.chanOpen.mpr (by simp [hs])
       unfold closeSend at h
       simp only [hs, ne_eq, reduceCtorEq, not_false_eq_true, if_true, Prod.mk.injEq] at h
       obtain ⟨rfl, rfl⟩ := h
-      refine ⟨⟨rfl, rfl, rfl, rfl, rfl, rfl, rfl, rfl, rfl, rfl, rfl⟩, hb.symm, rfl, ?_, ?_, ?_, ?_, ?_⟩
-      · simp [sendPkt_open c _ hop, dataOf]
-      · simp [sendPkt_open c _ hop, adjustSum]
-      · simp [sendPkt_open c _ hop, sStage, hs, LinkOK]
+      refine ⟨⟨rfl, rfl, rfl, rfl, rfl, rfl, rfl, rfl, rfl, rfl, rfl⟩, hb.symm, rfl, ?_, ?_, ?_, ?_, ?_, ?_, ?_, ?_, ?_⟩
+      · cases c.sendEofPending <;> simp [sendPkt, hop, dataOf]
+      · cases c.sendEofPending <;> simp [sendPkt, hop, adjustSum]
+      · cases c.sendEofPending <;> simp [sendPkt, hop, sStage, hs, LinkOK]
       · exact ⟨by simp, fun _ => rfl⟩
       · right; right; exact ⟨hs, rfl⟩
-    · simp only [Prod.mk.injEq] at h
+      · intro h; simp at h
+      · intro h; simp at h
+      · intro hm
+        right
+        refine ⟨hs, ?_⟩
+        cases hf : c.sendEofPending
+        · rw [hf] at hm; simp [sendPkt, hop] at hm
+        · rfl
+      · intro hwt
+        rcases hwt with h1 | ⟨_, h1⟩
+        · rw [hs] at h1; cases h1
+        · right; simp [h1, sendPkt, hop]
+    · rename_i hs1 hs2
+      simp only [Prod.mk.injEq] at h
       obtain ⟨rfl, rfl⟩ := h
-      exact ⟨SameRecv.refl _, rfl, rfl, rfl, rfl, by simp [LinkOK], hwf, Or.inl rfl⟩
-  · simp only [Prod.mk.injEq] at h
+      refine ⟨SameRecv.refl _, rfl, rfl, rfl, rfl, by simp [LinkOK], hwf, Or.inl rfl, id, ?_, by simp, ?_⟩
+      · intro h; rcases h with h | h
+        · exact absurd h hs1
+        · exact absurd h hs2
+      · intro hwt; exact Or.inl hwt
+  · rename_i p rest hb
+    simp only [Prod.mk.injEq] at h
     obtain ⟨rfl, rfl⟩ := h
-    exact ⟨SameRecv.refl _, rfl, rfl, rfl, rfl, by simp [LinkOK], hwf, Or.inl rfl⟩
+    exact ⟨SameRecv.refl _, rfl, rfl, rfl, rfl, by simp [LinkOK], hwf, Or.inl rfl, id, fun _ => by simp [hb], by simp,
+      fun hwt => Or.inl hwt⟩
 
 theorem flushSend_spec (c c' : Chan) (ms : List Msg) (hwf : WFs c) (h : flushSend c = some (c', ms)) :
     SendSpec c c' ms := by
@@ -434,9 +479,31 @@ theorem flushSend_spec (c c' : Chan) (ms : List Msg) (hwf : WFs c) (h : flushSen
     have hss1 : sStage c1 = sStage c := by simp [sStage, hst1]
     generalize hft : flushTail c1 = r at *
     obtain ⟨c2, ms2⟩ := r
-    obtain ⟨hsame2, hsb2, hw2, hd2, ha2, hp2, hwf2, htr2⟩ := flushTail_spec c1 c2 ms2 hwf1 hft
+    have ts := flushTail_spec c1 c2 ms2 hwf1 hft
+    obtain ⟨hsame2, hsb2, hw2, hd2, ha2, hp2, hwf2, htr2⟩ :=
+      (⟨ts.same, ts.sendBuf, ts.sendWindow, ts.noData, ts.noAdjust, ts.path, ts.wf, ts.trans⟩ :
+        SameRecv c1 c2 ∧ c2.sendBuf = c1.sendBuf ∧ c2.sendWindow = c1.sendWindow ∧ dataOf ms2 = [] ∧ adjustSum ms2 = 0 ∧
+        LinkOK (sStage c1) (sStage c2) ms2 ∧ WFs c2 ∧
+        (c2.sendState = c1.sendState ∨ (c1.sendState = .eofPending ∧ c2.sendState = .eof) ∨
+          (c1.sendState = .closePending ∧ c2.sendState = .closed)))
+    have hfl1 : c1.sendEofPending = c.sendEofPending := by rw [hfr]
+    have hno1 : Msg.eof ∉ ms1 := by
+      intro hm
+      have : ∀ (l : List Msg), allData l → Msg.eof ∉ l := by
+        intro l
+        induction l with
+        | nil => intro _ h; cases h
+        | cons m rest ih =>
+          intro hl hmem
+          cases m with
+          | data dt bs => rcases List.mem_cons.mp hmem with h | h; · cases h
+                          exact ih hl h
+          | adjust n => simp [allData] at hl
+          | eof => simp [allData] at hl
+          | close => simp [allData] at hl
+      exact this ms1 hall hm
     simp only
-    refine ⟨hsame1.trans hsame2, ?_, ?_, ?_, ?_, hwf2, ?_, ?_, ?_⟩
+    refine ⟨hsame1.trans hsame2, ?_, ?_, ?_, ?_, hwf2, ?_, ?_, ?_, ?_, ts.pendBuf, ?_, ?_⟩
     · rw [dataOf_append, hd2, hsb2, List.append_nil]; exact hstream
     · rw [dataOf_append, hd2, hw2, List.append_nil]; exact hwin
     · rw [adjustSum_append, ha2, allData_adjustSum _ hall]
@@ -457,5 +524,15 @@ theorem flushSend_spec (c c' : Chan) (ms : List Msg) (hwf : WFs c) (h : flushSen
       · exact hlen _ _ hm
       · exact absurd hm (dataOf_nil_not_mem ms2 hd2 dt bs)
     · rw [hst1] at htr2; exact htr2
+    · intro hf; rw [← hfl1]; exact ts.flagMono hf
+    · intro hm
+      rcases List.mem_append.mp hm with hm | hm
+      · exact absurd hm hno1
+      · rw [← hst1, ← hfl1]; exact ts.eofMsg hm
+    · intro hwt
+      have hwt1 : SendWaiting c1 := by unfold SendWaiting at *; rw [hst1, hfl1]; exact hwt
+      rcases ts.waiting hwt1 with h | h
+      · exact Or.inl h
+      · exact Or.inr (List.mem_append_right _ h)
 
 end AsyncsshModel.Channel
